@@ -714,6 +714,13 @@ func checkV2TreeRules(c *Ctx, l *Loaded) {
 			continue
 		}
 		run := runTable(fn, &tableEnv{l: l, flag: map[string]int{}, cmp: func(a, b string) (int, bool) { return 0, false }}, ev)
+		// the two mutateNode calls commute with each other (both only have to precede the re-wiring):
+		// compare the leading run of mutateNode events as a set
+		lead := 0
+		for lead < len(run.events) && strings.HasPrefix(run.events[lead], "mutateNode(") {
+			lead++
+		}
+		sort.Strings(run.events[:lead])
 		got := strings.Join(run.events, " ; ") + " => stuck"
 		if run.ret != nil {
 			got = strings.Join(run.events, " ; ") + " => " + roleOf(l, retVal(run.ret, 0), "", 0)
